@@ -303,8 +303,9 @@ def make_policy(name, seed):
     from rl4co.models.zoo import DACTPolicy, N2SPolicy, NeuOptPolicy
 
     torch.manual_seed(100 + seed)
-    cls = dict(dact=DACTPolicy, neuopt=NeuOptPolicy, n2s=N2SPolicy)[name]
-    return cls(embed_dim=16, num_heads=2, num_encoder_layers=1, feedforward_hidden=16).eval()
+    cls = dict(dact=DACTPolicy, neuopt=NeuOptPolicy, n2s=N2SPolicy, n2s_ape=N2SPolicy, dact_ape=DACTPolicy)[name]
+    kw = dict(pos_type="APE") if name.endswith("_ape") else {}  # documented non-default positional embedding
+    return cls(embed_dim=16, num_heads=2, num_encoder_layers=1, feedforward_hidden=16, **kw).eval()
 
 
 def unit_policy(item):
@@ -481,6 +482,9 @@ def work_items(tier):
         items.append(("policy", "neuopt", "tsp", 5, 3, [list(x) for x in PTS[:5]], tier, ws))
         items.append(("policy", "neuopt", "tsp", 6 if not q else 5, 4, [list(x) for x in PTS[: 6 if not q else 5]], tier, ws))
         items.append(("policy", "n2s", "pdp", 5, 0, [list(x) for x in PTS[:5]], tier, ws))
+        if ws == 0:
+            items.append(("policy", "n2s_ape", "pdp", 5, 0, [list(x) for x in PTS[:5]], tier, ws))
+            items.append(("policy", "dact_ape", "tsp", 5, 2, [list(x) for x in PTS[:5]], tier, ws))
     items.append(("torchrl", "tsp", 5, [list(x) for x in PTS[:5]], tier))
     items.append(("torchrl", "pdp", 5, [list(x) for x in PTS[:5]], tier))
     items.append(("init", "tsp", 5, tier))
